@@ -408,7 +408,7 @@ theorem parseMessages_wf {s : Spec} (ovr : Bool) :
       obtain ⟨i, hi, _, _⟩ := convertMsgId_wf hid
       have hfs : parseFields (specDefs s) g.fields = .ok (g.fields.map fun f => toDef (resolvedF s f)) := by
         simp only [wfMessage, wfFields, Bool.and_eq_true] at hg
-        exact parseFields_wf hg.2.1.2
+        exact parseFields_wf hg.2.1
       have hdef : (⟨g.name, i, g.group, g.fields.map fun f => toDef (resolvedF s f), g.direction⟩ : MessageDef)
           = msgDef s g := by
         simp [msgDef, msgIdText, hi]
@@ -471,7 +471,7 @@ theorem parse_wf {impl : Impl} {s : Spec} (ovr : Bool) (h : WF impl s) : parse o
     intro r hr
     obtain ⟨seen', hw⟩ := wfRecords_fields s.records [] h.recs r hr
     simp only [wfFields, Bool.and_eq_true] at hw
-    simp only [parseFields_wf hw.1.2, ok_bind, pure_eq_ok, recDef]
+    simp only [parseFields_wf hw.1, ok_bind, pure_eq_ok, recDef]
   have hmsgs := parseMessages_wf (s := s) ovr s.messages [] h.msgs (by simpa using h.keys)
   unfold parse
   rw [parseFieldDefs_wf h.defs]
@@ -1255,7 +1255,7 @@ theorem records_ok {impl : Impl} {s : Spec} (h : WF impl s) :
       simp only [wfRecords, Bool.and_eq_true] at hw
       obtain ⟨hwf, hwrest⟩ := hw
       simp only [wfFields, Bool.and_eq_true] at hwf
-      obtain ⟨b1, b2, b3, b4⟩ := body_ok henv hseen hwf.1.2
+      obtain ⟨b1, b2, b3, b4⟩ := body_ok henv hseen hwf.1
       have hpush := henv.pushRecord (k := r.name) (h.recName hr).2
       have hseen' : ∀ n ∈ r.name :: seen, ∃ r', findRecord? s n = some r' := by
         intro n hn
@@ -1313,7 +1313,7 @@ theorem messages_ok {impl : Impl} {s : Spec} (h : WF impl s) :
       obtain ⟨m1, m2, m3⟩ := message_facts hw
       have hw' := hw
       simp only [wfMessage, Bool.and_eq_true, wfFields] at hw'
-      obtain ⟨⟨_, hdir⟩, ⟨_, hfields⟩, _⟩ := hw'
+      obtain ⟨⟨_, hdir⟩, hfields, _⟩ := hw'
       obtain ⟨d1, d2, d3⟩ := direction_facts hdir
       have hseen : ∀ n ∈ s.records.map (·.name), ∃ r, findRecord? s n = some r := by
         intro n hn
